@@ -217,6 +217,36 @@ def main(argv):
                 ctx.violation("store/fetch through the serializer raised", dict(case, error=err), tags=tags)
             elif r1 is not True or got != o or type(got) is not type(o) or gm != {"k": o} or type(gm["k"]) is not type(o):
                 ctx.violation("value did not come back equal and of the same type", dict(case, got=repr(got)[:60], got_type=type(got).__name__), tags=tags)
+    # 3b. one set_many with values of DIFFERENT kinds (every item carries its own serializer flags), in several orders, fetched back one by one
+    #     and together
+    mixed = [("i", 7), ("b", b"raw bytes"), ("t", "text \u00e9"), ("d", {"k": [1, 2]}), ("z", 0), ("e", b""), ("n", None), ("f", 1.5), ("big", 10 ** 30)]
+    orders = [mixed, mixed[::-1], mixed[3:] + mixed[:3], [mixed[1], mixed[0], mixed[2]], [mixed[3], mixed[1]], [mixed[0], mixed[1]]]
+    for sname, sd in serdes:
+        if sname == "custom" or (not ctx.thorough and sname.startswith("compressed") and not sname.endswith(("-10", "-0"))):
+            continue
+        for oi, order in enumerate(orders):
+            srv, world, c = mk(serde_obj=sd, pfx=b"m:")
+            ctx.case(("serde-mixed", sname, oi))
+            ctx.count("serde-mixed-set_many")
+            case = {"serde": sname, "set_many_items_in_order": [repr(v_)[:20] for _, v_ in order]}
+            try:
+                failed = c.set_many(dict(order), noreply=False)
+                singles = {k_: c.get(k_) for k_, _ in order}
+                gm = c.get_many([k_ for k_, _ in order])
+                gsm = {k_: v_[0] for k_, v_ in c.gets_many([k_ for k_, _ in order]).items()}
+            except Exception as e:
+                ctx.violation("store/fetch through the serializer raised", dict(case, error=repr(e)[:120]), tags=["serde:" + sname.split("-")[0], "mixed-set_many"])
+                continue
+            for k_, v_ in order:
+                for how, got in (("get", singles.get(k_)), ("get_many", gm.get(k_)), ("gets_many", gsm.get(k_))):
+                    if failed or got != v_ or type(got) is not type(v_):
+                        ctx.violation("a value stored by set_many together with values of other kinds did not come back equal and of the same type",
+                                      dict(case, key=k_, stored=repr(v_)[:40], fetched_by=how, got=repr(got)[:40], got_type=type(got).__name__),
+                                      tags=["serde:" + sname.split("-")[0], "mixed-set_many"])
+                        break
+                else:
+                    continue
+                break
     # 4. key collections and key remapping
     def gen_keys(kind, ks):
         if kind == "list": return list(ks)
